@@ -117,14 +117,16 @@ def skeletons():
 def obligations(tier, seed):
     rnd = random.Random(seed)
     sks = list(skeletons())
-    if tier == "quick":
-        sks = rnd.sample(sks, 220)
+    # quick: every (template, identifier pair) through the pipeline and the renaming rule; the other renaming
+    # rules on a seed-chosen sample (a first version sampled 220 skeletons and lost a seeded change that needs
+    # one particular template with one particular kind of pair)
+    extra = set(rnd.sample(range(len(sks)), 220)) if tier == "quick" else set()
     obs = []
-    for sk in sks:
+    for i, sk in enumerate(sks):
         trs = ["format_code:safe=0", "rule+imports:fixes.align_variable_names_with_convention"]
         if tier != "quick":
             trs += ["rule+imports:" + r[5:] for r in RULES[1:]] + ["twice:format_code:safe=0"]
-        else:
+        elif i in extra:
             trs.append("rule+imports:" + rnd.choice(RULES[1:])[5:])
         for tr in trs:
             obs.append(Obligation("%s/%s" % (tr.split(":")[-1][:45], sk.sid), pool.ob_tv,
